@@ -84,6 +84,24 @@ class FortranExpressionMapper(_LeftNestedPowerMixin, StringifyMapper):
             return super().map_foreign(
                     expr, enclosing_prec)
 
+    def map_power(self, expr, enclosing_prec, *args, **kwargs):
+        exponent = expr.exponent
+        if (isinstance(exponent, (int, np.integer))
+                and not isinstance(exponent, (bool, np.bool_))):
+            # An integer exponent stays an integer: raising a negative
+            # number to a real power is not allowed in Fortran.
+            from pymbolic.mapper.stringifier import PREC_CALL, PREC_POWER
+            exponent_str = str(int(exponent))
+            if exponent < 0:
+                exponent_str = "(%s)" % exponent_str
+            return self.parenthesize_if_needed(
+                    self.format("%s**%s",
+                        self.rec(expr.base, PREC_CALL, *args, **kwargs),
+                        exponent_str),
+                    enclosing_prec, PREC_POWER)
+
+        return super().map_power(expr, enclosing_prec, *args, **kwargs)
+
     TARGET_PREFIX = "<target>"
 
     def map_variable(self, expr, enclosing_prec):
